@@ -12,6 +12,6 @@ import (
 func main() {
 	verifio.Main(map[string]verifio.Runner{
 		"dos": func(f []string) string { return appprotectdos.VerifDos(verifio.KV(f)) },
-		"ap": func(f []string) string { return appprotect.VerifAP(verifio.KV(f)) },
+		"ap":  func(f []string) string { return appprotect.VerifAP(verifio.KV(f)) },
 	})
 }
